@@ -191,6 +191,14 @@ void harness(void) {
   cbor_item_t *map = mk_map(), *key = mk_elem(), *value = nondet_bool() ? key : mk_elem();
   size_t in_alloc = map->metadata.map_metadata.allocated, in_end = map->metadata.map_metadata.end_ptr;
   bool in_def = map->metadata.map_metadata.type == _CBOR_METADATA_DEFINITE;
+#if defined(MAP_CASE_NOGROW)
+  __CPROVER_assume(in_def || in_end < in_alloc); /* case split: no reallocation possible */
+#elif defined(MAP_CASE_GROW)
+  __CPROVER_assume(!in_def && in_end == in_alloc); /* case split: a full indefinite map */
+#ifdef MAP_GROW_BOUND
+  __CPROVER_assume(in_alloc <= MAP_GROW_BOUND);
+#endif
+#endif
   g_s.valid = true;
   if (g_k < in_end) { g_s.key = ((struct cbor_pair *)map->data)[g_k].key; g_s.value = ((struct cbor_pair *)map->data)[g_k].value; }
 #if defined(H_MAP_ADD_KEY)
@@ -200,7 +208,15 @@ void harness(void) {
 #else
   bool r = cbor_map_add(map, (struct cbor_pair){.key = key, .value = value});
 #endif
-#if !defined(H_MAP_ADD_VALUE)
+#if defined(MAP_CASE_NOGROW)
+  __CPROVER_assert(!(in_def && !r), "COVER definite map full: refused");
+  __CPROVER_assert(!(in_def && r), "COVER definite map accepts");
+  __CPROVER_assert(!(!in_def && r && in_end < in_alloc), "COVER indefinite map with room");
+#elif defined(MAP_CASE_GROW)
+  __CPROVER_assert(!(r && in_alloc > 0), "COVER indefinite map grows by doubling");
+  __CPROVER_assert(!(r && in_alloc == 0), "COVER first growth from empty");
+  __CPROVER_assert(r, "COVER growth refused by the allocator");
+#elif !defined(H_MAP_ADD_VALUE)
   __CPROVER_assert(!(in_def && !r), "COVER definite map full: refused");
   __CPROVER_assert(!(in_def && r), "COVER definite map accepts");
   __CPROVER_assert(!(!in_def && r && in_end < in_alloc), "COVER indefinite map with room");
